@@ -7,7 +7,7 @@
 (* defines (ret is a SET here because the order of results is not part of  *)
 (* any property).                                                          *)
 (***************************************************************************)
-EXTENDS Scopes, Hier
+EXTENDS Scopes, Transform
 
 (* roots of a hierarchical query *)
 RootN(n)        == [t |-> "N", id |-> n]
@@ -72,7 +72,12 @@ ApplyX(s, c) ==
       [] c.op = "hcheck" -> [s |-> s, out |-> "ok",
                              ret |-> [j \in DOMAIN c.hs |-> [valid |-> Valid(s, c.hs[j]),
                                                             unique |-> Unique(s, c.hs[j])]]]
+      [] c.op \in {"uniquify", "flatten"} ->
+             IF ~(c.n \in IdsN(s)) \/ s.nlTop[c.n] = None \/ s.instRef[s.nlTop[c.n]] = None THEN Refuse(s)
+             ELSE Ok(IF c.op = "uniquify" THEN Uniquify(s, c.n) ELSE Flatten(s, c.n))
       [] OTHER -> Apply(s, c)
+RECURSIVE ApplySeqX(_, _)
+ApplySeqX(s, cs) == IF cs = <<>> THEN s ELSE ApplySeqX(ApplyX(s, Head(cs)).s, Tail(cs))
 
 ---------------------------------------------------------------------------
 (* Build alphabets: only VALID, structure-respecting construction steps, in *)
@@ -125,6 +130,10 @@ QueryCandsC12(s) ==
     {HQS("hwires", RootH(h), "ALL") : h \in OccWire(s, n) \cup OccCable(s, n) \cup OccPin(s, n) \cup OccPort(s, n)}
     \cup {HQS("hwires", RootH(h), sel) : <<h, sel>> \in OccPin(s, n) \X {"INSIDE", "OUTSIDE"}}
     \cup {HQS("hpins", RootH(h), "NONE") : h \in OccWire(s, n)}
+(* the transformation pipeline offered in a design of the transform scopes *)
+XfCands(s) ==
+    {[op |-> "seq", calls |-> << [op |-> "uniquify", n |-> 1], [op |-> "uniquify", n |-> 1],
+                                 [op |-> "flatten", n |-> 1] >>]}
 (* queries that take part in random walks (scopes with walk = TRUE): they are steps of the       *)
 (* behaviour, so that queries, renames and structural edits interleave on the same objects       *)
 WalkQueryCands(s) ==
